@@ -13,7 +13,7 @@ cargo build --release --offline 2>&1 | tail -1
 run_demo() {
   case "$KIND" in
     test:*) [ -f "$O/demo_test.diff" ] && git apply "$O/demo_test.diff"; cargo test --offline --release "${KIND#test:}" 2>&1 | grep -E "^test result|panicked|left:|right:" | head -6; [ -f "$O/demo_test.diff" ] && git apply -R "$O/demo_test.diff";;
-    sh) bash "$O/demo.sh" 2>&1 | tail -4; echo "demo.sh exit=$?";;
+    sh) bash "$O/demo.sh" > "$O/demo.out" 2>&1; rc=$?; tail -4 "$O/demo.out"; echo "demo.sh exit=$rc";;
   esac
 }
 echo "== demo WITH change (expect failure)"; run_demo
